@@ -3,8 +3,10 @@ package main
 import (
 	"fmt"
 	"go/ast"
+	"go/constant"
 	"go/token"
 	"go/types"
+	"golang.org/x/tools/go/packages"
 	"sort"
 	"strings"
 
@@ -41,10 +43,152 @@ func (s runeSet) String() string {
 // predSet extracts the accepted set of a one-parameter rune predicate `func(r rune) bool { return <formula> }`
 // by partitioning the rune domain at the constants of the formula and evaluating the formula's syntax tree once
 // per elementary interval. Returns ok=false when the body is not such a formula.
+// predSet: the set of runes a one-parameter predicate accepts. A single boolean formula over comparisons is decided
+// directly; any other body (switch statements, guard clauses, ...) is evaluated by engine E2 at the breakpoints, provided
+// the parameter is only ever compared with constants or handed to another predicate (so that the outcome is uniform
+// between neighbouring constants).
 func predSet(L *Loaded, fi *FuncInfo, memo map[*types.Func]runeSet) (runeSet, bool) {
 	if s, ok := memo[fi.Obj]; ok {
 		return s, s != nil
 	}
+	if s, ok := predSetFormula(L, fi, memo); ok {
+		return s, true
+	}
+	delete(memo, fi.Obj)
+	if s, ok := predSetEval(L, fi, memo); ok {
+		memo[fi.Obj] = s
+		return s, true
+	}
+	memo[fi.Obj] = nil
+	return nil, false
+}
+
+func predSetEval(L *Loaded, fi *FuncInfo, memo map[*types.Func]runeSet) (runeSet, bool) {
+	d := fi.Decl
+	if d.Body == nil || d.Type.Params == nil || len(d.Type.Params.List) != 1 || len(d.Type.Params.List[0].Names) != 1 {
+		return nil, false
+	}
+	info := fi.Pkg.TypesInfo
+	param := info.Defs[d.Type.Params.List[0].Names[0]]
+	memo[fi.Obj] = nil // recursion guard
+	var consts []int64
+	ok := true
+	var stack []ast.Node
+	ast.Inspect(d.Body, func(n ast.Node) bool {
+		if n == nil {
+			stack = stack[:len(stack)-1]
+			return true
+		}
+		stack = append(stack, n)
+		if e, isExpr := n.(ast.Expr); isExpr {
+			if v, isC := constInt(info, e); isC {
+				consts = append(consts, v)
+			}
+		}
+		id, isId := n.(*ast.Ident)
+		if !isId || info.Uses[id] != param || len(stack) < 2 {
+			return true
+		}
+		parent := stack[len(stack)-2]
+		if pe, isParen := parent.(*ast.ParenExpr); isParen && len(stack) >= 3 {
+			_ = pe
+			parent = stack[len(stack)-3]
+		}
+		switch p := parent.(type) {
+		case *ast.BinaryExpr:
+			switch p.Op {
+			case token.EQL, token.NEQ, token.LSS, token.LEQ, token.GTR, token.GEQ:
+				other := p.X
+				if ast.Unparen(p.X) == ast.Expr(id) {
+					other = p.Y
+				}
+				if _, isC := constInt(info, other); !isC {
+					ok = false
+				}
+			default:
+				ok = false
+			}
+		case *ast.SwitchStmt:
+			if p.Tag == nil || ast.Unparen(p.Tag) != ast.Expr(id) {
+				ok = false
+			}
+		case *ast.CallExpr:
+			fn := Callee(info, p)
+			cf := L.Funcs[fn]
+			if fn == nil || cf == nil || len(p.Args) != 1 {
+				ok = false
+				break
+			}
+			if cf != fi {
+				cs, cok := predSet(L, cf, memo)
+				if !cok {
+					ok = false
+					break
+				}
+				for _, iv := range cs {
+					consts = append(consts, iv[0], iv[1])
+				}
+			}
+		default:
+			ok = false
+		}
+		return true
+	})
+	if !ok {
+		return nil, false
+	}
+	// case constants of a switch over the parameter are constants of the body too (collected above)
+	pts := map[int64]bool{-1: true, 0: true, 0x10FFFF: true}
+	for _, c := range consts {
+		for _, dd := range []int64{-1, 0, 1} {
+			if c+dd >= -1 && c+dd <= 0x10FFFF {
+				pts[c+dd] = true
+			}
+		}
+	}
+	var sorted []int64
+	for p := range pts {
+		sorted = append(sorted, p)
+	}
+	sort.Slice(sorted, func(i, j int) bool { return sorted[i] < sorted[j] })
+	in := NewInterp(L)
+	good := true
+	at := func(r int64) bool {
+		var res Val
+		runs, _ := in.RunAll(2, func() {
+			res = in.CallFunc(fi, nil, []Val{ConstV{V: constant.MakeInt64(r), T: types.Typ[types.Int32]}})
+		})
+		t, known := truth(res)
+		if runs != 1 || !known {
+			good = false
+		}
+		return t
+	}
+	set := runeSet{}
+	addIv := func(lo, hi int64) {
+		if n := len(set); n > 0 && set[n-1][1]+1 == lo {
+			set[n-1][1] = hi
+		} else {
+			set = append(set, [2]int64{lo, hi})
+		}
+	}
+	for i, p := range sorted {
+		if at(p) {
+			addIv(p, p)
+		}
+		if i+1 < len(sorted) && sorted[i+1] > p+1 {
+			if at(p + 1) {
+				addIv(p+1, sorted[i+1]-1)
+			}
+		}
+	}
+	if !good {
+		return nil, false
+	}
+	return set, true
+}
+
+func predSetFormula(L *Loaded, fi *FuncInfo, memo map[*types.Func]runeSet) (runeSet, bool) {
 	memo[fi.Obj] = nil
 	d := fi.Decl
 	if d.Type.Params == nil || len(d.Type.Params.List) != 1 || len(d.Type.Params.List[0].Names) != 1 || len(d.Body.List) != 1 {
@@ -226,7 +370,7 @@ func checkC13(c *Check) {
 			}
 			tv := info.Types[cl]
 			nt, ok := tv.Type.(*types.Named)
-			if !ok || nt.Obj().Name() != "Token" || nt.Obj().Pkg().Name() != "token" {
+			if !ok || !nameIs(nt.Obj(), "Token") || !nameIs(nt.Obj().Pkg(), "token") {
 				return true
 			}
 			q := L.QName(fi.Obj)
@@ -337,7 +481,7 @@ func checkC13(c *Check) {
 			case *ast.AssignStmt:
 				if len(s.Rhs) == 1 && len(s.Lhs) == 2 {
 					if call, ok := s.Rhs[0].(*ast.CallExpr); ok {
-						if fn := Callee(info, call); fn != nil && fn.Pkg().Path() == "unicode/utf8" && fn.Name() == "DecodeRune" && len(call.Args) == 1 {
+						if fn := Callee(info, call); fn != nil && fn.Pkg().Path() == "unicode/utf8" && nameIs(fn, "DecodeRune") && len(call.Args) == 1 {
 							if sl, ok := call.Args[0].(*ast.SliceExpr); ok && isField(fieldOf(info, sl.X), "scanner", "Scanner", "src") && isField(fieldOf(info, sl.Low), "scanner", "Scanner", "cur") && sl.High == nil {
 								if id, ok := s.Lhs[1].(*ast.Ident); ok {
 									widthVar = info.Defs[id]
@@ -445,39 +589,73 @@ func checkC13(c *Check) {
 	// ---------------- R13.3 ----------------
 	r3 := c.Rule("R13.3", "ScanAll ends with exactly one EOF token; New refuses invalid UTF-8 before any token", 2)
 	if fi := L.Fn("src/scanner.(*Scanner).ScanAll"); fi != nil {
-		// shape: a loop appending while tok.Type != EOF, then exactly one append after the loop, then return.
-		var loops, appendsAfter, appendsIn int
-		var loopCondOK bool
-		for _, st := range fi.Decl.Body.List {
-			switch s := st.(type) {
-			case *ast.ForStmt:
-				loops++
-				if be, ok := s.Cond.(*ast.BinaryExpr); ok && be.Op == token.NEQ {
-					if sel, ok := be.Y.(*ast.SelectorExpr); ok {
-						if cst, ok := info.Uses[sel.Sel].(*types.Const); ok && cst.Name() == "EOF" {
-							loopCondOK = true
-						}
-					}
-				}
-				ast.Inspect(s.Body, func(n ast.Node) bool {
-					if call, ok := n.(*ast.CallExpr); ok {
-						if id, ok := call.Fun.(*ast.Ident); ok && id.Name == "append" {
-							appendsIn++
-						}
-					}
-					return true
-				})
-			case *ast.AssignStmt:
-				if loops == 1 {
-					if call, ok := s.Rhs[0].(*ast.CallExpr); ok {
-						if id, ok := call.Fun.(*ast.Ident); ok && id.Name == "append" && len(call.Args) == 2 {
-							appendsAfter++
-						}
-					}
-				}
+		// decided by evaluating ScanAll (engine E2) against a scripted NextToken that yields k ordinary tokens and then EOF for
+		// ever, k = 0..3: the result must be those k tokens followed by exactly one EOF token (whatever form the loop has)
+		var eofV, otherV Val = Unk{"EOF"}, Unk{"IDENTIFIER"}
+		if tp := L.ByRel["src/token"]; tp != nil {
+			if cst, ok := tp.Types.Scope().Lookup("EOF").(*types.Const); ok {
+				eofV = ConstV{V: cst.Val(), T: cst.Type(), Name: "EOF"}
+			}
+			if cst, ok := tp.Types.Scope().Lookup("IDENTIFIER").(*types.Const); ok {
+				otherV = ConstV{V: cst.Val(), T: cst.Type(), Name: "IDENTIFIER"}
 			}
 		}
-		r3.Decide(loops == 1 && loopCondOK && appendsIn == 1 && appendsAfter == 1, "scanner.(*Scanner).ScanAll|one EOF", fi.Decl.Pos(), "loop appends non-EOF tokens, one append of the EOF token after the loop", "ScanAll does not have the shape 'append tokens until EOF, then append that EOF token exactly once'")
+		var problems []string
+		und := ""
+		for k := 0; k <= 3; k++ {
+			in := NewInterp(L)
+			served := 0
+			in.Models["scanner.(*Scanner).NextToken"] = func(in *Interp, pkg *packages.Package, call *ast.CallExpr, recv Val, args []Val) (Val, bool) {
+				t := newObj("token.Token")
+				if served < k {
+					t.set("Type", otherV)
+				} else {
+					t.set("Type", eofV)
+				}
+				served++
+				if served > k+8 {
+					in.event("panic", "ScanAll keeps asking for tokens after EOF", call.Pos())
+					return abortV{}, true
+				}
+				return t, true
+			}
+			var res Val
+			runs, _ := in.RunAll(4, func() {
+				served = 0
+				res = in.CallFunc(fi, newObj("scanner.Scanner"), nil)
+			})
+			sl, ok := res.(SliceV)
+			if runs != 1 || !ok {
+				und = fmt.Sprintf("ScanAll could not be evaluated for %d tokens before EOF (%v)", k, res)
+				for _, ev := range in.Events {
+					if ev.Kind == "panic" {
+						problems = append(problems, ev.Msg)
+					}
+				}
+				continue
+			}
+			eofs, lastIsEOF := 0, false
+			for i, e := range sl.Elems {
+				isEOF := false
+				if o, ok := e.(*Obj); ok {
+					if t, known := eqVal(o.get("Type"), eofV); known && t {
+						isEOF = true
+					}
+				}
+				if isEOF {
+					eofs++
+					lastIsEOF = i == len(sl.Elems)-1
+				}
+			}
+			if len(sl.Elems) != k+1 || eofs != 1 || !lastIsEOF {
+				problems = append(problems, fmt.Sprintf("for %d tokens followed by EOF, ScanAll returns %d tokens with %d EOF token(s) (EOF last: %v)", k, len(sl.Elems), eofs, lastIsEOF))
+			}
+		}
+		if und != "" && len(problems) == 0 {
+			r3.Und("scanner.(*Scanner).ScanAll|one EOF", fi.Decl.Pos(), und)
+		} else {
+			r3.Decide(len(problems) == 0, "scanner.(*Scanner).ScanAll|one EOF", fi.Decl.Pos(), "for 0..3 tokens before the end: all of them, then exactly one EOF token", strings.Join(uniq(problems), "; ")+": the parser relies on one terminating EOF token")
+		}
 	} else {
 		r3.Und("scanner.(*Scanner).ScanAll", token.NoPos, "function not found")
 	}
@@ -501,7 +679,7 @@ func checkC13(c *Check) {
 					cond = ast.Unparen(u.X)
 				}
 				if call, ok := cond.(*ast.CallExpr); ok {
-					if fn := Callee(info, call); fn != nil && fn.Pkg().Path() == "unicode/utf8" && fn.Name() == "Valid" {
+					if fn := Callee(info, call); fn != nil && fn.Pkg().Path() == "unicode/utf8" && nameIs(fn, "Valid") {
 						if (i == 0) != neg { // edge on which Valid(...) is true
 							return s | 1
 						}
